@@ -38,6 +38,8 @@ func init() {
 			{ID: "C20-R15", Title: "fragments parsed on their own are rebased to their place in the source", Floor: 1, Run: fragmentsAreRebased},
 			{ID: "C20-R16", Title: "comments are skipped until none is left", Floor: 2, Run: commentsAreSkippedUntilNoneIsLeft},
 			{ID: "C20-R17", Title: "closers are tested after the newlines", Floor: 2, Run: closersAreTestedAfterTheNewlines},
+			{ID: "C20-R18", Title: "binary operators step over newlines", Floor: 3, Run: binaryOperatorsStepOverNewlines},
+			{ID: "C20-R19", Title: "closers of sequences are expected after the newlines", Floor: 3, Run: closersAreExpectedAfterTheNewlines},
 		},
 	})
 }
